@@ -65,7 +65,7 @@ theorem setattr_frame (M : Kind → Cat → Mode) (fuel : Nat) (s : Shape) (h : 
     the caller's `required` list loses an element -/
 def mutatingTable : List AliasRow :=
   [{ op := .schemaToCode, kind := .root, cat := .none, argMutated := true, returns := .scalar, retainsArg := false,
-     shallow := false, astMode := "mutates", agree := true }]
+     shallow := false, deep := false, astMode := "mutates", agree := true }]
 
 theorem arg_mutation_counterexample :
     let h0 := Heap.ofList [⟨"dict", [("required", .ref 1)]⟩, ⟨"list", [("0", .atom 1), ("1", .atom 2)]⟩]
@@ -205,7 +205,7 @@ theorem tables_ok : TablesOk Generated.aliasing := by
   decide +kernel
 
 /-- the exclusion list is exact: every listed row is in today's table, in scope and unsafe -/
-theorem known_rows_are_unsafe :
+theorem known_rows_are_findings :
     knownRows.all (fun k => Generated.aliasing.any fun r =>
       r.op == k.1 && r.kind == k.2.1 && r.cat == k.2.2 && !r.safe && r.inScope) = true := by
   decide +kernel
@@ -215,7 +215,7 @@ theorem no_arg_mutation_today : Generated.aliasing.all (fun r => !r.argMutated &
   decide +kernel
 
 /-- the committed snapshot the model was last aligned with has the same unsafe rows as today's table -/
-theorem pinned_same_unsafe :
+theorem pinned_same_findings :
     (Generated.aliasing.filter fun r => !r.safe).map (fun r => (r.op, r.kind, r.cat)) =
     (Pinned.aliasing.filter fun r => !r.safe).map (fun r => (r.op, r.kind, r.cat)) := by
   decide +kernel
@@ -373,7 +373,7 @@ def witnessItem : Cat → Shape
 
 def witnessShape (k : Kind) (c : Cat) : Shape :=
   match k with
-  | .array | .deque | .set | .tuple | .map => .coll k (witnessItem c)
+  | .array | .deque | .set | .immSet | .tuple | .map => .coll k (witnessItem c)
   | .anyOf | .oneOf | .allOf | .notF => .wrap k (witnessItem c)
   | .any => .any
   | _ => .keyed k [("x", .scalar .number)]
